@@ -79,7 +79,7 @@ func (fcx *frameChecker) summary(key string) *frameSummary {
 		return s
 	}
 	s.inProgress = true
-	fcx.analyze(fi, s)
+	fcx.analyzeFlow(fi, s)
 	s.inProgress = false
 	s.done = true
 	return s
